@@ -116,3 +116,11 @@ CLAIMED["C20"] = ("JSON addressability walk over static types + error provenance
   "bytes that were written) and the status discipline. Right level: the transport's faithfulness for every outcome is a finite set of "
   "code-shape facts; byte-level bodies are not claimed.",
   TRUST, "DESIGN.md §3 C20")
+CLAIMED["C19"] = ("edge-cut pairing of submit and counter-advance events with provenance of keyset/count arguments + loop-structure rules of the restore scan",
+  "Decides for every wallet operation that a successful submission of counter-derived outputs is followed on every success path by a matching "
+  "successful counter advance (right keyset, right count), never after a failed submission, with no exported operation returning with the "
+  "obligation open; and for restore that counters are consecutive per keyset, the stop rule is three consecutive empty batches, and every "
+  "batch that returned signatures advances the stored counter by the per-keyset delta before the next batch. Right level: 'no counter reused, "
+  "stored counter past every signed one' over all fault-free histories rests on this per-path pairing; wallet crash points and numeric "
+  "completeness are not claimed.",
+  TRUST, "DESIGN.md §3 C19")
